@@ -68,6 +68,7 @@ theorem reg_frame (c : Cfg) (P : List Watcher → Nat → List (Nat × Nat) → 
         simp only [run] at hrun
         subst hrun; exact hu wid hq
       | other k => run_cases hrun with grind [RegP]
+      | clsSet p v => run_cases hrun with grind [RegP]
       | raise => run_cases hrun with grind [RegP]
       | raiseBase => run_cases hrun with grind [RegP]
       | try_ body => run_cases hrun with grind [RegP]
@@ -76,7 +77,7 @@ theorem reg_frame (c : Cfg) (P : List Watcher → Nat → List (Nat × Nat) → 
       run_cases hrun with grind [RegP]
     | setPlain p v =>
       have h1 := ih (.dispatch (sortByPrec (regsFor w p)) { name := p, old := getVal w p, new := v })
-        { w with vals := w.vals.set p v }
+        { w with vals := w.vals.set p v, owned := p :: w.owned }
       run_cases hrun with grind [RegP]
     | setSlot p k v =>
       have h1 := ih (.dispatch (regsForSlot w p k) { name := p, old := getSlot w p k, new := v, what := k })
